@@ -2,11 +2,18 @@
 import OllamaVerif.Model.Sched
 namespace OllamaVerif.Generated.C01
 open OllamaVerif.Sched
-/-- extractor output: deletes=1 guardedDeletes=1; guardDelete=true; recheckGrant=true; deletesElsewhere=0; expiredCaseFound=true; expiredAtomic=true; unloadUnderLoadedMu=true -/
+/-- extractor output: deletes=1 guardedDeletes=1; guardDelete=true; recheckGrant=true; deletesElsewhere=0; expiredCaseFound=true; expiredAtomic=true; unloadUnderLoadedMu=true; evictBlockFound=true; evictAtomic=true; enqueueNonBlocking=true; waitUnloadPure=true -/
 def treeVariant : Variant := ⟨true, true⟩
 def deletesElsewhere : Nat := 0
 /-- the expired handler tests refCount and unloads in ONE critical section of refMu (no check-then-act window) -/
 def expiredAtomic : Bool := true
 /-- unload() and the delete from `loaded` happen while loadedMu is held (the model's atomic `cExp` region) -/
 def unloadUnderLoadedMu : Bool := true
+/-- processPending marks its eviction victim (sessionDuration = 0) and tests whether it is idle in ONE critical
+    section of the victim's refMu (the model's atomic `pExpire` region) -/
+def evictAtomic : Bool := true
+/-- GetRunner enqueues with a non-blocking send (`select … default: ErrMaxQueue`): the model's `submit` never blocks -/
+def enqueueNonBlocking : Bool := true
+/-- the `<-s.unloadedCh` arms of processPending only log and continue (`pDrainUnloaded` / `pWaitUnload` change nothing else) -/
+def waitUnloadPure : Bool := true
 end OllamaVerif.Generated.C01
